@@ -254,7 +254,12 @@ impl<M: GuestAddressSpace> VringState<M> {
         }
 
         if let Some(kick) = &self.kick {
-            kick.consume()?;
+            match kick.consume() {
+                // Nothing to read: the event is stale (the kick fd has been replaced since
+                // epoll reported it). There is nothing to process.
+                Err(e) if e.kind() == io::ErrorKind::WouldBlock => return Ok(false),
+                res => res?,
+            }
         }
 
         Ok(self.enabled)
